@@ -13,13 +13,15 @@ if [ ! -d $M-wt ]; then git -C /repo worktree add -q --detach $M-wt HEAD || exit
 git -C $M-wt reset -q --hard && git -C $M-wt checkout -q --detach "$(git -C /repo rev-parse HEAD)" && git -C $M-wt clean -fdq
 if [ "$PATCH" != "/dev/null" ]; then git -C $M-wt apply "$PATCH" || { echo "patch does not apply"; exit 2; }; fi
 mkdir -p $M-harness $M-out
-rsync -a --delete --exclude Cargo.lock /verif/harness/ $M-harness/
+rsync -a --checksum --delete --exclude Cargo.lock /verif/harness/ $M-harness/ && find $M-harness -name "*.rs" -newer $M-harness/Cargo.toml -exec touch {} + 2>/dev/null; touch $M-harness/*/src/lib.rs 2>/dev/null
 [ -f $M-harness/Cargo.lock ] || cp /repo/Cargo.lock $M-harness/Cargo.lock
 sed -i "s#\"/repo/#\"$M-wt/#g" $M-harness/Cargo.toml
 sed -i "s#/verif/target#$M-target#" $M-harness/.cargo/config.toml
 bin=$(echo "$ID" | tr 'A-Z' 'a-z')
 feats=$(python3 /verif/tools/binfeatures.py "$bin")
-(cd $M-harness && cargo build --release --offline --bin "$bin" --features "$feats" 2>&1 | tail -3) || exit 2
+rm -f $M-target/release/$bin
+(cd $M-harness && cargo build --release --offline --bin "$bin" --features "$feats" 2>&1 | tail -3)
+[ -x $M-target/release/$bin ] || { echo "MACHINERY ERROR: the check binary did not build against the patched tree"; exit 2; }
 case "$ID" in C01|C05|C14|C15|C18|C19|C20)
   (cd $M-wt && CARGO_TARGET_DIR=$M-target-repo cargo build --release --offline -p fontc 2>&1 | tail -1) || exit 2
   export VERIF_FONTC_BIN=$M-target-repo/release/fontc;;
